@@ -68,8 +68,11 @@ def run_once(W, cfg, S, like, boost, before, blobs):
     bl0 = before[3] if blobs else None
     n = len(lw0)
     draws_pre = S.rng.draws
-    ok, post = call(W, 'C14:equal-weight-no-raise', lambda: S.posterior(
-        equal_weight=True, equal_weight_boost=boost, return_blobs=blobs))
+    from .sampler_accessors import exp_guarded
+    ok, post = exp_guarded(
+        W, 'C14:equal-weight-no-raise', lambda: S.posterior(
+            equal_weight=True, equal_weight_boost=boost, return_blobs=blobs),
+        'posterior(equal_weight=True)', 'C14:exp-argument-cannot-overflow')
     if not ok:
         return
     pts, lw, ll = post[0], post[1], post[2]
